@@ -9,6 +9,7 @@ require (
 	github.com/luno/workflow/adapters/sqlstore v0.0.0
 	github.com/luno/workflow/adapters/sqltimeout v0.0.0
 	github.com/luno/workflow/adapters/webui v0.0.0
+	k8s.io/utils v0.0.0-20240921022957-49e7df575cb6
 )
 
 require (
@@ -27,7 +28,6 @@ require (
 	golang.org/x/sys v0.31.0 // indirect
 	google.golang.org/protobuf v1.36.6 // indirect
 	gopkg.in/yaml.v3 v3.0.1 // indirect
-	k8s.io/utils v0.0.0-20240921022957-49e7df575cb6 // indirect
 )
 
 replace github.com/luno/workflow => /repo
